@@ -72,6 +72,10 @@ impl Ledger {
     }
 }
 
+thread_local! {
+    /// poison the driver-side copy of device-writable buffers while they are shared (default on)
+    pub static POISON_ON_SHARE: std::cell::Cell<bool> = std::cell::Cell::new(true);
+}
 thread_local! { pub static LEDGER: RefCell<Ledger> = RefCell::new(Ledger::new()); }
 
 pub fn reset() {
@@ -240,6 +244,12 @@ unsafe impl Hal for LedgerHal {
             let mut bounce = vec![0u8; len];
             if dir == 0 || dir == 2 {
                 unsafe { std::ptr::copy_nonoverlapping(vaddr as *const u8, bounce.as_mut_ptr(), len) };
+            }
+            if dir == 1 && POISON_ON_SHARE.with(|p| p.get()) {
+                // A device-writable buffer belongs to the device until it is unshared: what the driver side holds in
+                // the meantime is unspecified (a bounce-buffer platform copies back at unshare). Poisoning it makes a
+                // driver that delivers data from a buffer it has already re-posted observable (C19, C15, C16, C18).
+                unsafe { std::ptr::write_bytes(vaddr as *mut u8, 0xa5, len) };
             }
             let paddr = l.next_share;
             l.next_share += ((len as u64 + 15) & !15) + 16;
